@@ -116,6 +116,7 @@ Lemma execute_outcome last_n tau ps rq st msg_last proof_empty hs mmr rb rg e :
   outcome last_n tau ps rq st msg_last proof_empty hs mmr e.
 Proof.
   unfold execute.
+  destruct (is_ok (vtd msg_last)); cbn [negb]; [|intros E; inversion E; constructor].
   destruct (same_vheader (pr_last rq) msg_last) as [same| |] eqn:SV; cbn [bind]; try discriminate.
   destruct same; cbn [negb].
   2: { destruct proof_empty.
@@ -123,6 +124,7 @@ Proof.
          destruct (v_root_ok msg_last) eqn:RT; cbn [negb]; [|intros E; inversion E; constructor].
          intros E; inversion E. apply O_new_last_state; auto.
        - intros E; inversion E; constructor. }
+  destruct (headers_ok (fun h => is_ok (vtd h)) hs); cbn [negb]; [|intros E; inversion E; constructor].
   destruct (verify_all last_n tau ps rq msg_last hs mmr) as [[code|[[[r s] l] ft]]| |] eqn:VA; cbn [bind]; try discriminate.
   - intros E; inversion E; constructor.
   - apply verify_all_gates in VA. destruct ft.
